@@ -12,9 +12,9 @@ tmp=$(mktemp -d /dev/shm/feos-det.XXXXXX)
 rc=0
 report=/verif/evidence/determinism.txt
 : > "$report"
-for e in sched:c11-state sched:c11-parpure sim:c12-session sim:c12-driver sim:c14-loader sim:c14-loader-faults sim:c18-profile; do
+for e in sched:c11-state sched:c11-parpure sim:c12-session sim:c12-driver sim:c14-loader sim:c14-loader-faults sim:c18-profile sim:c18-driver; do
   cfg=${e%%:*}; name=${e##*:}
-  n=$RUNS; [ "$name" = c18-profile ] && n=$((RUNS/8+1))
+  n=$RUNS; case "$name" in c18-profile|c18-driver) n=$((RUNS/8+1));; esac
   VERIF_DIR=$tmp/a "$SIM/target-$cfg/release/feos-sim" "$name" --seed "$SEED" --runs "$n" --workers 1  --digest-out "$tmp/$name.w1"  >/dev/null 2>&1
   VERIF_DIR=$tmp/b "$SIM/target-$cfg/release/feos-sim" "$name" --seed "$SEED" --runs "$n" --workers 16 --digest-out "$tmp/$name.w16" >/dev/null 2>&1
   VERIF_DIR=$tmp/c "$SIM/target-$cfg/release/feos-sim" "$name" --seed "$SEED" --runs "$n" --workers 5  --digest-out "$tmp/$name.w5"  >/dev/null 2>&1
